@@ -302,6 +302,78 @@ def part_passive(ctx, pq, conns, quick, rng):
                 ctx.validated()
 
 
+def part_fermionic(ctx, pq, conns, quick, rng):
+    """PqFermi behaviours on both fermionic simulators under the JAX connector (NumPy is C17's subject): state vector, Majorana covariance"""
+    if "jax" not in conns:
+        return
+    import piquasso.fermionic._utils as FU
+    from ..common import run_tlc
+    from ..gaussian_replay import qv
+    from . import c17
+    counters = ctx.notes.setdefault("fermionic", {"states": 0, "fock": 0, "gaussian": 0, "unsupported": 0})
+    d = 3
+    gates = L.fermi_catalogue(d, rng=rng, size=8 if quick else 16, with_cphase=True)
+    inputs = rng.sample(range(2 ** d), 3)
+    mod = ("---- MODULE MCPF ----\nEXTENDS PqFermi\nGDef == << %s >>\nInDef == { %s }\n====\n"
+           % (",\n ".join(L.fermi_record(g) for g in gates), ", ".join(map(str, inputs))))
+    res = run_tlc("MCPF", "MCPF.cfg", generated={"MCPF.tla": mod, "MCPF.cfg": c17.CFG % (d, 2)}, timeout=3000)
+    if res.violated or "Error:" in res.out:
+        raise MachineryError("PqFermi failed in C09:\n" + "\n".join(l for l in res.out.splitlines() if not l.startswith('<<"FERMI"'))[-1500:])
+    ctx.add_tlc(res)
+    recs, seen = [], set()
+    for r in res.records("FERMI"):
+        k = tuple(r["hist"])
+        if k not in seen and len(r["hist"]) > 1:
+            seen.add(k)
+            recs.append(r)
+    if quick and len(recs) > 50:
+        recs = rng.sample(recs, 50)
+    basis = np.asarray(FU.get_fock_space_basis(d, d + 1))
+    masks = [sum(int(b[k]) << k for k in range(d)) for b in basis]
+    for rec in recs:
+        s0 = rec["hist"][0]
+        idx = [i - 1 for i in rec["hist"][1:]]
+        names = [gates[i]["name"] + str(gates[i]["modes"]) for i in idx]
+        sig = "/".join(sorted({n.split("(")[0] for n in names}))
+        psi = np.array([qv(rec["psi"][str(T)]) if isinstance(rec["psi"], dict) else qv(rec["psi"][T]) for T in range(2 ** d)])
+        sigma = np.array([[qv(x) for x in row] for row in rec["sigma"]]).real
+        occ = [(s0 >> k) & 1 for k in range(d)]
+        replay = {"input": occ, "gates": names}
+        ctx.case((s0, tuple(names)))
+        counters["states"] += 1
+        with warnings.catch_warnings():
+            warnings.simplefilter("ignore")
+            ins = [pq.NumberState(occ).on_modes(*range(d))] + [gates[i]["mk"](pq).on_modes(*gates[i]["modes"]) for i in idx]
+            try:
+                sf = pq.fermionic.PureFockSimulator(d=d, config=pq.Config(cutoff=d + 1), connector=conns["jax"]()).execute(pq.Program(instructions=ins)).state
+                sv = np.asarray(sf.state_vector)
+                exp = np.array([psi[m] for m in masks])
+                counters["fock"] += 1
+                if sv.shape != exp.shape or np.abs(sv - exp).max() > TOL:
+                    ctx.report(f"C09:fermionic-fock:jax:state_vector:{sig}", f"fermionic PureFockSimulator with the jax connector differs from the exact state after {names} on {occ} "
+                               f"(max deviation {np.abs(sv - exp).max() if sv.shape == exp.shape else 'shape'})", replay)
+                else:
+                    ctx.validated()
+            except (NotImplementedError, pq.api.exceptions.PiquassoException) as e:
+                counters["unsupported"] += 1
+            except Exception as e:  # noqa
+                ctx.report(f"C09:fermionic-fock:jax:raises:{type(e).__name__}:{sig}", f"fermionic PureFockSimulator with the jax connector raised {type(e).__name__}: {str(e)[:120]} for {names} on {occ} (NumPy runs)", replay)
+            if all(gates[i]["gaussian"] for i in idx):
+                try:
+                    sg = pq.fermionic.GaussianSimulator(d=d, connector=conns["jax"]()).execute(pq.Program(instructions=ins)).state
+                    cg = np.asarray(sg.covariance_matrix)
+                    counters["gaussian"] += 1
+                    if np.abs(cg - sigma).max() > TOL:
+                        ctx.report(f"C09:fermionic-gaussian:jax:covariance:{sig}", f"fermionic GaussianSimulator with the jax connector: covariance differs from the exact one after {names} on {occ} "
+                                   f"(max {np.abs(cg - sigma).max():.3g})", replay)
+                    else:
+                        ctx.validated()
+                except (NotImplementedError, pq.api.exceptions.PiquassoException) as e:
+                    counters["unsupported"] += 1
+                except Exception as e:  # noqa
+                    ctx.report(f"C09:fermionic-gaussian:jax:raises:{type(e).__name__}:{sig}", f"fermionic GaussianSimulator with the jax connector raised {type(e).__name__}: {str(e)[:120]} for {names} on {occ}", replay)
+
+
 def run(ctx):
     import piquasso as pq
     quick = ctx.tier == "quick"
@@ -320,3 +392,5 @@ def run(ctx):
     ctx.tick("gaussian")
     part_passive(ctx, pq, conns, quick, rng)
     ctx.tick("passive")
+    part_fermionic(ctx, pq, conns, quick, rng)
+    ctx.tick("fermionic")
